@@ -20,7 +20,12 @@ type msgGen struct {
 	wide       bool // also draw values outside the documented wire format: NaN/Inf, out-of-range dates and timestamps
 	malformed  bool // also draw invalid UTF-8, undefined enum numbers, Any with unknown types / broken payloads
 	maxEntries int  // list / map sizes
+	big        bool // also draw long strings / byte strings and collections with more than 64 entries
+	emptySubs  int  // chance (percent) that a message-typed value is left present but empty
 }
+
+// sizes around the chunk boundaries of buffered writers and base64 groups
+var bigSizes = []int{1023, 1024, 1025, 2047, 2048, 2049, 3071, 3072, 3073, 4095, 4096, 4097, 5000, 6145}
 
 var textPool = []string{
 	"", "a", "hello world", "with \"quotes\" and \\backslash\\", "tab\there", "nl\nnl", "cr\rcr", "\b\f", "\x00\x01\x1f", "\x7f", "</script>", "/slash/",
@@ -29,6 +34,15 @@ var textPool = []string{
 
 func (g *msgGen) text() string {
 	r := g.r
+	if g.big && r.Chance(12) {
+		n := vh.Pick(r, bigSizes)
+		var sb strings.Builder
+		for sb.Len() < n {
+			sb.WriteString(vh.Pick(r, textPool))
+			sb.WriteString("x")
+		}
+		return sb.String()[:n-3] + "end" // may cut a multi-byte rune: keep it valid below
+	}
 	switch r.Intn(10) {
 	case 0, 1, 2, 3:
 		return vh.Pick(r, textPool)
@@ -407,11 +421,18 @@ func (g *msgGen) single(fd protoreflect.FieldDescriptor, newMsg func() protorefl
 	case protoreflect.DoubleKind:
 		return protoreflect.ValueOfFloat64(g.float64Val())
 	case protoreflect.StringKind:
-		return protoreflect.ValueOfString(g.text())
+		t := g.text()
+		if g.big && !g.malformed {
+			t = strings.ToValidUTF8(t, "?")
+		}
+		return protoreflect.ValueOfString(t)
 	case protoreflect.BytesKind:
 		n := r.Range(0, 12)
 		if r.Chance(10) {
 			n = r.Range(13, 70)
+		}
+		if g.big && r.Chance(25) {
+			n = vh.Pick(r, bigSizes)
 		}
 		return protoreflect.ValueOfBytes(r.Bytes(n))
 	case protoreflect.EnumKind:
@@ -422,6 +443,9 @@ func (g *msgGen) single(fd protoreflect.FieldDescriptor, newMsg func() protorefl
 		return protoreflect.ValueOfEnum(vals.Get(r.Intn(vals.Len())).Number())
 	case protoreflect.MessageKind:
 		m := newMsg()
+		if g.emptySubs > 0 && r.Chance(g.emptySubs) && !isWKT(fd.Message().FullName()) {
+			return protoreflect.ValueOfMessage(m) // present, nothing inside
+		}
 		g.fill(m, depth+1)
 		return protoreflect.ValueOfMessage(m)
 	}
@@ -478,9 +502,12 @@ func (g *msgGen) fill(m protoreflect.Message, depth int) {
 			vfd = fd.MapValue()
 		}
 		if vfd.Kind() == protoreflect.MessageKind && depth >= g.maxDepth {
-			// leaves only at the depth limit: well-known scalars and small payloads
-			n := string(vfd.Message().FullName())
-			if !strings.HasPrefix(n, "google.protobuf.") && !strings.HasPrefix(n, "j5.types.") {
+			// leaves only at the depth limit: well-known scalars and small payloads,
+			// or (sometimes) a present-but-empty sub-message
+			if !isWKT(vfd.Message().FullName()) {
+				if g.emptySubs > 0 && r.Chance(g.emptySubs) && !fd.IsList() && !fd.IsMap() {
+					m.Set(fd, protoreflect.ValueOfMessage(m.NewField(fd).Message()))
+				}
 				continue
 			}
 		}
@@ -488,16 +515,28 @@ func (g *msgGen) fill(m protoreflect.Message, depth int) {
 		case fd.IsList():
 			l := m.Mutable(fd).List()
 			n := r.Range(0, g.maxEntries)
+			if g.big && r.Chance(8) {
+				n = vh.Pick(r, []int{63, 64, 65, 100, 129})
+			}
 			for k := 0; k < n; k++ {
 				l.Append(g.single(fd, func() protoreflect.Message { return l.NewElement().Message() }, depth))
 			}
 		case fd.IsMap():
 			mp := m.Mutable(fd).Map()
 			n := r.Range(0, g.maxEntries)
+			if g.big && r.Chance(8) {
+				n = vh.Pick(r, []int{63, 64, 65, 100, 129})
+			}
 			for k := 0; k < n; k++ {
 				key := g.text()
 				if r.Chance(50) {
 					key = fmt.Sprintf("k%d", r.Intn(6))
+				}
+				if n > 8 {
+					key = fmt.Sprintf("key-%d", k)
+				}
+				if g.big && !g.malformed {
+					key = strings.ToValidUTF8(key, "?")
 				}
 				mp.Set(protoreflect.ValueOfString(key).MapKey(), g.single(fd.MapValue(), func() protoreflect.Message { return mp.NewValue().Message() }, depth))
 			}
@@ -505,4 +544,55 @@ func (g *msgGen) fill(m protoreflect.Message, depth int) {
 			m.Set(fd, g.single(fd, func() protoreflect.Message { return m.NewField(fd).Message() }, depth))
 		}
 	}
+}
+
+func isWKT(n protoreflect.FullName) bool {
+	return strings.HasPrefix(string(n), "google.protobuf.") || strings.HasPrefix(string(n), "j5.types.")
+}
+
+// emptySubMessages enumerates, for a root type, one message per message-typed field (at depth one
+// and two) in which that field is present and holds nothing: singular, as the only list element,
+// as the only map value.
+func emptySubMessages(newRoot func() protoreflect.Message) []protoreflect.Message {
+	var out []protoreflect.Message
+	var rec func(build func(inner func(m protoreflect.Message)) protoreflect.Message, md protoreflect.MessageDescriptor, depth int)
+	rec = func(build func(inner func(m protoreflect.Message)) protoreflect.Message, md protoreflect.MessageDescriptor, depth int) {
+		for i := 0; i < md.Fields().Len(); i++ {
+			fd := md.Fields().Get(i)
+			vfd := fd
+			if fd.IsMap() {
+				vfd = fd.MapValue()
+			}
+			if vfd.Kind() != protoreflect.MessageKind || isWKT(vfd.Message().FullName()) {
+				continue
+			}
+			set := func(m protoreflect.Message, inner func(protoreflect.Message)) {
+				switch {
+				case fd.IsList():
+					e := m.Mutable(fd).List().AppendMutable().Message()
+					inner(e)
+				case fd.IsMap():
+					mp := m.Mutable(fd).Map()
+					e := mp.NewValue()
+					inner(e.Message())
+					mp.Set(protoreflect.ValueOfString("k").MapKey(), e)
+				default:
+					e := m.Mutable(fd).Message()
+					inner(e)
+				}
+			}
+			out = append(out, build(func(m protoreflect.Message) { set(m, func(protoreflect.Message) {}) }))
+			if depth < 2 {
+				rec(func(inner func(m protoreflect.Message)) protoreflect.Message {
+					return build(func(m protoreflect.Message) { set(m, inner) })
+				}, vfd.Message(), depth+1)
+			}
+		}
+	}
+	rec(func(inner func(m protoreflect.Message)) protoreflect.Message {
+		m := newRoot()
+		inner(m)
+		return m
+	}, newRoot().Descriptor(), 1)
+	return out
 }
